@@ -56,6 +56,7 @@ func runC10Effects(c *core.Ctx) {
 	k := newG(c, "./lang/parse", "./lang/check")
 	tok := func(name string) interface{} { return k.obj("anchors", "lang/token", name) }
 	_ = tok
+	runC10Clone(k)
 
 	// E4b.1 parseAssignNode: the statement's value effect must not exceed the function's.
 	if fl := k.flow("P4b.assign", "lang/parse", "parser", "parseAssignNode"); fl != nil {
@@ -208,6 +209,58 @@ func runC10Effects(c *core.Ctx) {
 				}})
 		}
 	}
+}
+
+// runC10Clone: CloneReadOnly (the type pure methods see fields through) is deep.
+func runC10Clone(k *gctx) {
+	c := k.c
+	fl := k.flow("P4b.clone", "lang/ast", "TypeExpr", "CloneReadOnly")
+	if fl == nil {
+		return
+	}
+	name := fl.F.Name()
+	isRecStore := func(n ast.Node) bool {
+		as, ok := n.(*ast.AssignStmt)
+		if !ok || len(as.Lhs) != 1 || len(as.Rhs) != 1 {
+			return false
+		}
+		if !selField(fl, as.Lhs[0], "rhs") {
+			return false
+		}
+		return core.AnyCall(as.Rhs[0], func(call *ast.CallExpr) bool { return nameIs(fl, call, "CloneReadOnly") })
+	}
+	k.mustPass("P4b.clone.deep", name, "the read-only clone of a container type recurses into its element type on every path (a pure method must not obtain a writable inner array/slice of a field)", fl, core.Query{
+		Exit: fl.SuccessReturn, FuncEnd: true,
+		Events: []core.Event{{Node: isRecStore}},
+		Exempt: func(cond ast.Expr, ci *core.CondInfo, taken bool) bool {
+			return !taken && nilTest(fl, cond, func(e ast.Expr) bool { return selField(fl, e, "rhs") }, false)
+		}})
+	// decorator mapping
+	want := map[string]string{"IDArray": "IDRoarray", "IDSlice": "IDRoslice", "IDTable": "IDRotable"}
+	got := map[string]string{}
+	ast.Inspect(fl.F.Decl.Body, func(m ast.Node) bool {
+		cc, ok := m.(*ast.CaseClause)
+		if !ok || len(cc.List) != 1 || len(cc.Body) != 1 {
+			return true
+		}
+		as, ok := cc.Body[0].(*ast.AssignStmt)
+		if !ok || len(as.Rhs) != 1 {
+			return true
+		}
+		ks, ok1 := ast.Unparen(cc.List[0]).(*ast.SelectorExpr)
+		vs, ok2 := ast.Unparen(as.Rhs[0]).(*ast.SelectorExpr)
+		if ok1 && ok2 {
+			got[ks.Sel.Name] = vs.Sel.Name
+		}
+		return true
+	})
+	okMap := len(got) == 3
+	for kk, v := range want {
+		if got[kk] != v {
+			okMap = false
+		}
+	}
+	c.Check(okMap, "P4b.clone.map", name, "array/slice/table become roarray/roslice/rotable", len(got), fmt.Sprintf("%v", got))
 }
 
 // runC10Templates: hand-written C templates define no non-const object with
